@@ -245,14 +245,54 @@ func runC02(c *core.Ctx, ck *Check) {
 				w.Count("shape:single", 1)
 			}
 		}
+		// all in-scope bounds in the pool's sorted order: neighbours are cluster mates (same numbers, another
+		// marker / revision / spelling), where redundant-bound and tie handling goes wrong
+		var near []int
+		for _, x := range p.SortedIdx() {
+			if boundOK(e.Name, p.Strs[x]) {
+				near = append(near, x)
+				bidx[p.Strs[x]] = x
+			}
+		}
+		pickBounds := func(m int) []string {
+			out := make([]string, m)
+			if r.IntN(2) == 0 && len(near) > 6 {
+				at := r.IntN(len(near))
+				for x := range out {
+					k := at + r.IntN(7) - 3
+					if k < 0 {
+						k = 0
+					}
+					if k >= len(near) {
+						k = len(near) - 1
+					}
+					out[x] = p.Strs[near[k]]
+				}
+				return out
+			}
+			for x := range out {
+				out[x] = p.Strs[bounds[r.IntN(len(bounds))]]
+			}
+			return out
+		}
 		// AND lists of 2-3 comparators, every separator spelling
-		for k := 0; k < c.Scale(60, 120) && len(bounds) >= 3; k++ {
+		for k := 0; k < c.Scale(120, 240) && len(bounds) >= 3; k++ {
 			sep := syn.and[r.IntN(len(syn.and))]
 			m := 2 + r.IntN(2)
 			var parts, toks []string
-			for x := 0; x < m; x++ {
+			sameSide := r.IntN(3) == 0 // several lower (or several upper) bounds in one list
+			side := r.IntN(2)
+			for _, b := range pickBounds(m) {
 				sp := spell[r.IntN(len(spell))]
-				b := p.Strs[bounds[r.IntN(len(bounds))]]
+				if sameSide {
+					for tries := 0; tries < 20; tries++ {
+						base := syn.ops[sp]
+						if (side == 0 && (base == ">" || base == ">=")) || (side == 1 && (base == "<" || base == "<=")) {
+							break
+						}
+						sp = spell[r.IntN(len(spell))]
+					}
+				}
 				parts = append(parts, sp+b)
 				toks = append(toks, sp, b)
 			}
@@ -271,9 +311,8 @@ func runC02(c *core.Ctx, ck *Check) {
 				m := 1 + r.IntN(2)
 				sep := syn.and[r.IntN(len(syn.and))]
 				var parts []string
-				for y := 0; y < m; y++ {
+				for _, b := range pickBounds(m) {
 					sp := spell[r.IntN(len(spell))]
-					b := p.Strs[bounds[r.IntN(len(bounds))]]
 					parts = append(parts, sp+b)
 					toks = append(toks, sp, b)
 				}
